@@ -1,6 +1,8 @@
 """C03 — gRPC calls reach the right RPC with the caller's request and return the reply."""
 import random
 
+from google.protobuf.descriptor import FieldDescriptor as FD
+
 from vlib import apigen, pipeline, rdm, refs
 
 ID = "C03"
@@ -20,7 +22,7 @@ def floors(tier):
     k = 1 if tier == "quick" else 8
     return {"calls_judged": 800 * k, "arity:unary_unary": 300 * k, "arity:unary_stream": 10 * k, "arity:stream_unary": 10 * k,
             "arity:stream_stream": 10 * k, "form:dict": 100 * k, "form:omitted": 100 * k, "client:async": 300 * k,
-            "foreign_request": 20 * k, "void": 20 * k, "second_client_calls": 100 * k}
+            "foreign_request": 20 * k, "void": 20 * k, "second_client_calls": 100 * k, "big_reply_calls": 16 * k}
 
 
 def plan(seed, tier):
@@ -30,6 +32,8 @@ def plan(seed, tier):
     cases += [{"id": f"wire-own-iam-{seed}-{i}", "seed": seed * 100003 + 7000 + i, "own_iam": True} for i in range(max(3, n // 5))]
     # two proto-plus modules with one base name (root package and a sub-package) behind one service
     cases += [{"id": f"wire-twin-{seed}-{i}", "seed": seed * 100003 + 8000 + i, "twin": True} for i in range(max(2, n // 8))]
+    # the whole API moved into a proto sub-package (next to a sibling sub-package)
+    cases += [{"id": f"wire-sub-{seed}-{i}", "seed": seed * 100003 + 6000 + i, "subpkg": True} for i in range(max(2, n // 10))]
     return cases
 
 
@@ -47,6 +51,13 @@ def build_api(case):
         api = apigen.conventional(rng2, "r%d" % (case["seed"] % 100000),
                                   {"foreign": True, "streams": True, "exotic": rng2.random() < 0.5})
     api.options = ["transport=grpc", "autogen-snippets=false"]
+    if case.get("subpkg"):
+        # a moderate API: with sub-packages the unversioned alias __init__.py renders the repr() of every sub-package's API view (known
+        # finding C01-subpackage-*), which for the large "exotic" shapes takes minutes
+        api = apigen.conventional(random.Random(case["seed"] + 100), "r%d" % (case["seed"] % 100000),
+                                  {"foreign": True, "streams": True, "exotic": False, "nfiles": 1})
+        api.options = ["transport=grpc", "autogen-snippets=false"]
+        apigen.into_subpackage(api)
     return api
 
 
@@ -108,7 +119,21 @@ def run_case(case):
     model = rdm.Model(req)
     rng = random.Random(case["seed"] ^ 0x5A5A)
     calls = make_calls(rng, req, model)
-    script = {"root_pkg": apigen.lib_root(api.info, api.options), "calls": calls}
+    # one reply of 5.5 MiB (gRPC's default receive limit is 4 MiB) through clients whose transport makes the channel ITSELF (the
+    # documented channel=<callable> hook), so that the channel options the transport asks for are in effect
+    big = None
+    for i, c in enumerate(calls):
+        if c["arity"] == "unary_unary" and c["form"] == "message" and c["kind"] == "plain" and not c["void"]:
+            d = model.desc(c["resp_type"])
+            fd = next((f for f in d.fields if f.type in (FD.TYPE_STRING, FD.TYPE_BYTES) and f.label != FD.LABEL_REPEATED
+                       and not f.containing_oneof), None)
+            if fd is not None:
+                y = model.parse(c["resp_type"], rdm.unb64(c["replies"][0]))
+                val = ("x" if fd.type == FD.TYPE_STRING else b"x") * (5 * 2 ** 20 + 2 ** 19)
+                setattr(y, fd.name, val)
+                big = {"index": i, "field": fd.name, "reply": rdm.b64(y.SerializeToString()), "length": len(val)}
+                break
+    script = {"root_pkg": apigen.runner_root(api), "calls": calls, "big": big}
     ev, rc, err = pipeline.run_runner("checks.c03", script, lib, timeout=300)
     if ev is None or "runner_crash" in ev or "library_import_error" in ev:
         return pipeline.runner_failed_result(ev, rc, err, api)
@@ -118,6 +143,17 @@ def run_case(case):
         counters[k] = counters.get(k, 0) + n
 
     sample = None
+    if big:
+        for kind in ("sync", "async"):
+            o = (ev.get("big") or {}).get(kind) or {}
+            bump("big_reply_calls")
+            mech = {"client": kind, "probe": "reply-larger-than-4MiB-on-a-transport-made-channel"}
+            if o.get("error"):
+                viol.append({"clause": "large-reply-not-delivered", "detail": {"rpc": calls[big["index"]]["rpc"], "client": kind, "bytes": big["length"],
+                                                                              "why": o["error"]}, "mech": mech})
+            elif o.get("length") != big["length"] or o.get("type") != calls[big["index"]]["resp_type"]:
+                viol.append({"clause": "reply-payload", "detail": {"rpc": calls[big["index"]]["rpc"], "client": kind, "got": o, "sent_bytes": big["length"]},
+                             "mech": mech})
     for call, res in zip(calls, ev["results"]):
         for kind in ("sync", "async"):
             r = res[kind]
@@ -369,6 +405,45 @@ def in_runner(script):
             results[i]["async2"] = out
 
     asyncio.run(amain())
+    bigout = {}
+    if script.get("big"):
+        import grpc
+        from google.auth.credentials import AnonymousCredentials
+        b = script["big"]
+        call = script["calls"][b["index"]]
+        path = "/%s/%s" % (call["full_service"], call["rpc"])
+        req0 = lib.mk(call["req_type"], rt.unb64(call["requests"][0]))
+
+        def sync_channel(host, **kw):
+            return grpc.insecure_channel(host, options=kw.get("options"))
+
+        def aio_channel(host, **kw):
+            return grpc.aio.insecure_channel(host, options=kw.get("options"))
+
+        o = bigout["sync"] = {}
+        try:
+            C = lib.client_cls(call["service"])
+            c = C(transport=C.get_transport_class("grpc")(host=srv.target, channel=sync_channel, credentials=AnonymousCredentials()))
+            srv.script(path, [{"payloads": [b["reply"]]}])
+            ret = getattr(c, call["method"])(request=req0)
+            o["type"] = rt.ser(ret)[0]
+            o["length"] = len(getattr(ret, b["field"]))
+        except BaseException as e:  # noqa
+            o["error"] = rt.exc_info(e)
+
+        async def abig():
+            o = bigout["async"] = {}
+            try:
+                C = lib.client_cls(call["service"], asyn=True)
+                c = C(transport=C.get_transport_class("grpc_asyncio")(host=srv.target, channel=aio_channel, credentials=AnonymousCredentials()))
+                srv.script(path, [{"payloads": [b["reply"]]}])
+                ret = await getattr(c, call["method"])(request=req0)
+                o["type"] = rt.ser(ret)[0]
+                o["length"] = len(getattr(ret, b["field"]))
+            except BaseException as e:  # noqa
+                o["error"] = rt.exc_info(e)
+
+        asyncio.run(abig())
     srv.stop()
     srv2.stop()
-    return {"results": results, "proxy_log": logs}
+    return {"results": results, "proxy_log": logs, "big": bigout}
